@@ -1,5 +1,5 @@
-import p_cards, p_eval, p_showdown, p_flop, p_scopes
+import p_cards, p_eval, p_showdown, p_flop, p_scopes, p_sym, p_workers
 
 CHECKS = {}
-for m in (p_cards, p_eval, p_showdown, p_flop, p_scopes):
+for m in (p_cards, p_eval, p_showdown, p_flop, p_scopes, p_sym, p_workers):
     CHECKS.update(m.CHECKS)
